@@ -152,6 +152,29 @@ def write_search_cases(path, seed, tier):
         eu = {(min(a, b), max(a, b)) for (a, b) in e}
         out.append({"k": "dijkstra", "dir": False, "g": enc_graph(n, eu, False, {(min(a, b), max(a, b)): w[(a, b)] for (a, b) in e}),
                     "sources": [0, n - 1], "family": "detour-chain-undirected(%d)" % k})
+    # improvement-rich inputs: dense graphs in which longer routes are cheaper (weight grows
+    # super-linearly with the index distance), so that queued vertices are improved many times
+    for n in ([10, 14] if tier == "quick" else [10, 14, 18, 24]):
+        for trial in range(3 if tier == "quick" else 8):
+            perm = list(range(n))
+            rng.shuffle(perm)
+            e, w = set(), {}
+            for i in range(n):
+                for j in range(i + 1, n):
+                    if rng.random() < 0.8:
+                        a, b = perm[i], perm[j]
+                        e.add((a, b))
+                        w[(a, b)] = (j - i) ** 2 + rng.randint(0, 2)
+            out.append({"k": "dijkstra", "dir": True, "g": enc_graph(n, e, True, w), "sources": [perm[0], perm[1]],
+                        "family": "superlinear-dag(%d)" % n})
+            eu = {(min(a, b), max(a, b)) for (a, b) in e}
+            out.append({"k": "dijkstra", "dir": False, "g": enc_graph(n, eu, False, {(min(a, b), max(a, b)): w[(a, b)] for (a, b) in e}),
+                        "sources": [perm[0], perm[n - 1]], "family": "superlinear-undirected(%d)" % n})
+    # adversarial search for work-maximising Dijkstra inputs (guided by the implementation itself)
+    for n in ([10, 14] if tier == "quick" else [10, 14, 20, 30]):
+        for d in (True, False):
+            out.append({"k": "dijkstra_adversarial", "dir": d, "n": n, "iterations": 60000 if tier == "quick" else 300000,
+                        "restarts": 4 if tier == "quick" else 8, "seed": rng.randint(1, 10 ** 6)})
     # complete DAGs and zero-weight cycles
     for n in ([6, 8] if tier == "quick" else [6, 8, 12, 16]):
         e = {(i, j) for i in range(n) for j in range(n) if i < j}
@@ -386,7 +409,7 @@ def _search_files(pid, tier, seed, want):
     write_search_cases(p, seed, tier)
     # keep only the wanted kinds
     with open(p) as f:
-        lines = [l for l in f if json.loads(l)["k"] in want]
+        lines = [l for l in f if json.loads(l)["k"] in want or (json.loads(l)["k"] == "dijkstra_adversarial" and want == {"search", "dijkstra"})]
     with open(p, "w") as f:
         f.writelines(lines)
     return [("search-random-and-families", p, {"families": NOLABEL + ["multigraph+weighted classes"]})]
